@@ -9,7 +9,9 @@ REQUIRED_THEOREMS = ['Via.C13', 'Via.C13_refuse_when_blank']
 LEVEL = "proof"
 RULE = ("every header string over {CR,LF,'a',':'} up to a length bound (exhaustive) plus random strings over all bytes, "
         "each through tx_response::is_valid/message with status 200/204/100 and through add_header(name,value); "
-        "a case is non-trivial when the string contains CR or LF; distinct = distinct (string, status, path)")
+        "a case is non-trivial when the string contains CR or LF; distinct = distinct (string, status, path); plus the send paths of the "
+        "real http_connection (sim_driver): header strings with and without an empty line x GET / HEAD x the three send overloads x "
+        "inside the handler / later x HEAD translation: refused (nothing written) iff the string would split the head")
 TRUSTED_BASE = ["Lean 4.33 kernel", "axioms: propext, Classical.choice, Quot.sound at most",
                 "tools/extract.py (CRLF constant, window initialisation)", "rx_driver harness + via_model driver",
                 "std::string modelled as List UInt8"]
